@@ -573,6 +573,19 @@ func runWireCase(raw json.RawMessage, w *TraceWriter) {
 			br2.Recycle()
 			rd2.Release(nil)
 		}
+		// a live connection: the bytes of the value have arrived, whatever follows has not.  A decode that asks the source
+		// for more than the value needs would block there; here the source answers such a request with an error and
+		// counts it ("over")
+		if si == 0 && o.ok && o.n <= len(in) {
+			src4 := &exactSource{dataSource: dataSource{data: in[:o.n], chunks: sh.chunks}}
+			rd4 := bufiox.NewDefaultReader(src4)
+			br4 := thrift.NewBufferReader(rd4)
+			o4 := decodeStream(c.Kind, in, br4)
+			w.Ev("dec", "api", "stream", "kind", c.Kind, "frag", sh.name+"+nothing-more-has-arrived", "in", inJSON, "ok", o4.ok, "n", o4.n, "used", rd4.ReadLen(), "val", Raw(o4.val),
+				"tid", tidOf(o4.err), "srcerr", false, "panic", o4.panicd, "over", src4.extra > 0)
+			br4.Recycle()
+			rd4.Release(nil)
+		}
 		// a reader that is not sticky (somebody else's bufiox.Reader over a connection with deadlines): its first call fails
 		// with a transient error, the caller retries, and the decode then runs into whatever the source does next.  Every
 		// failure carries the error of THAT call: the second one the source's own end, not the time-out seen before it
@@ -592,6 +605,21 @@ func runWireCase(raw json.RawMessage, w *TraceWriter) {
 }
 
 var errTransient = errors.New("verif: i/o timeout (transient)")
+var errNotYet = errors.New("verif: nothing more has arrived (a real connection would block here)")
+
+// exactSource hands out its data and counts every Read issued after the last byte was handed out
+type exactSource struct {
+	dataSource
+	extra int
+}
+
+func (s *exactSource) Read(p []byte) (int, error) {
+	if s.pos >= len(s.data) {
+		s.extra++
+		return 0, errNotYet
+	}
+	return s.dataSource.Read(p)
+}
 
 // flakyReader: a foreign bufiox.Reader whose first call fails with a transient error without consuming anything;
 // afterwards it forwards.  Unlike the library's own reader it does not remember the error.
